@@ -216,11 +216,59 @@ theorem status_400_iff (K : Codec) (src : Source) (req : Request) :
     | json => simp only [okData]; split <;> simp [Resp.status]
     | other => simp [Resp.status]
 
-/-- everything else is 404: the three statuses are the only outcomes -/
+/-- the handler ALWAYS answers (no panic outcome), whatever the source holds -/
+theorem serve_total (K : Codec) (src : Source) (req : Request) :
+    (serveTile K src req).status ≠ none := by
+  unfold serveTile
+  split
+  · simp [Resp.status]
+  · cases hg : getData src req.rest with
+    | ok o =>
+      cases o with
+      | none => simp [Resp.status]
+      | some r =>
+        simp only [okData]
+        cases ho : optimize K r.blob r.comp (targetFor req.accept req.fast r.mime) with
+        | ok res => simp [Resp.status]
+        | err => simp [Resp.status]
+        | panic s => exact absurd ho (optimize_no_panic K _ _ _ s)
+    | err => simp [Resp.status]
+    | panic s => exact absurd hg (getData_no_panic src _ s)
+
+/-- 500 is answered only for a stored blob that is not a valid stream of the source's compression
+    (and only when it would have to be decoded) -/
+theorem status_500_only_if_undecodable (K : Codec) (src : Source) (req : Request)
+    (h : (serveTile K src req).status = some 500) :
+    ∃ r, getData src req.rest = .ok (some r) ∧ K.dec r.comp r.blob = none := by
+  unfold serveTile at h
+  split at h
+  · simp [Resp.status] at h
+  · cases hg : getData src req.rest with
+    | ok o =>
+      rw [hg] at h
+      cases o with
+      | none => simp [Resp.status] at h
+      | some r =>
+        refine ⟨r, rfl, ?_⟩
+        cases hd : K.dec r.comp r.blob with
+        | none => rfl
+        | some p =>
+          obtain ⟨res, hres⟩ := optimize_ok_of_valid K r.blob r.comp
+            (targetFor req.accept req.fast r.mime) p (targetFor_raw _ _ _) hd
+          simp [okData, hres, Resp.status] at h
+    | err => rw [hg] at h; simp [Resp.status] at h
+    | panic s => exact absurd hg (getData_no_panic src _ s)
+
+/-- with valid stored tiles everything else is 404: the three statuses are the only outcomes -/
 theorem status_trichotomy (K : Codec) (src : Source) (hv : StoredValid K src) (req : Request) :
     (serveTile K src req).status = some 200 ∨ (serveTile K src req).status = some 404 ∨
     (serveTile K src req).status = some 400 := by
-  have h := serve_no_panic K src hv req
+  have h := serve_total K src req
+  have h5 : (serveTile K src req).status ≠ some 500 := by
+    intro h5
+    obtain ⟨r, hg, hd⟩ := status_500_only_if_undecodable K src req h5
+    obtain ⟨p, hp⟩ := getData_valid K src hv _ r hg
+    rw [hd] at hp; cases hp
   cases hs : serveTile K src req <;> simp_all [Resp.status]
 
 /-- coordinates outside the level are never served and never crash: always 404 -/
@@ -237,6 +285,25 @@ theorem no_parts_404 (K : Codec) (src : Source) (req : Request) (h : asVec req.r
   split
   · rfl
   · simp [getData, classify, h, classifyParts]
+
+/-- `ok_data` on its own: whatever it answers with 200 has the source's media type, a Content-Encoding that
+    names the encoding of the body, a body that decodes to what the stored blob decodes to, in an encoding the
+    negotiated target allows -/
+theorem okData_sound (K : Codec) (r : SrcResp) (accept : Option String) (fast : Bool) (ct : String)
+    (ce : Option String) (c : Comp) (body : Bytes) (h : okData K r accept fast = .ok ct ce c body) :
+    ct = r.mime ∧ ce = encToken c ∧ K.dec c body = K.dec r.comp r.blob ∧
+      (targetFor accept fast r.mime).has c = true := by
+  simp only [okData] at h
+  cases ho : optimize K r.blob r.comp (targetFor accept fast r.mime) with
+  | ok res =>
+    obtain ⟨b', c'⟩ := res
+    rw [ho] at h
+    simp only [Resp.ok.injEq] at h
+    obtain ⟨rfl, rfl, rfl, rfl⟩ := h
+    obtain ⟨h1, h2⟩ := optimize_sound K _ _ _ _ _ ho
+    exact ⟨rfl, rfl, h2, h1⟩
+  | err => rw [ho] at h; cases h
+  | panic s => rw [ho] at h; cases h
 
 /-- **body / Content-Type / Content-Encoding law** for every 200 response -/
 theorem response_sound (K : Codec) (src : Source) (req : Request) (ct : String) (ce : Option String)
@@ -384,6 +451,228 @@ theorem image_not_compressed (K : Codec) (src : Source) (req : Request) (z x y :
         | panic s => rw [ho] at h; cases h
     | err => rw [hg] at h; cases h
     | panic s => rw [hg] at h; cases h
+
+/-! ### static routes: precompressed variants and on-the-fly recompression must agree -/
+
+/-- all stored variants of a file carry the same content `p` -/
+def Consistent (K : Codec) (e : StaticEntry) (p : Bytes) : Prop :=
+  (∀ b, e.un = some b → b = p) ∧ (∀ b, e.gz = some b → K.dec .gzip b = some p) ∧
+  (∀ b, e.br = some b → K.dec .brotli b = some p)
+
+theorem tarSelect_content (K : Codec) (e : StaticEntry) (t : Target) (p b : Bytes) (c : Comp)
+    (hc : Consistent K e p) (h : tarSelect e t = some (b, c)) : K.dec c b = some p := by
+  obtain ⟨h1, h2, h3⟩ := hc
+  unfold tarSelect at h
+  cases hb1 : (if t.brotli = true then e.br else none) with
+  | some x =>
+    rw [hb1] at h
+    simp only [Option.some.injEq, Prod.mk.injEq] at h
+    obtain ⟨rfl, rfl⟩ := h
+    have : e.br = some x := by
+      split at hb1
+      · exact hb1
+      · cases hb1
+    exact h3 _ this
+  | none =>
+    rw [hb1] at h
+    simp only at h
+    cases hg1 : (if t.gzip = true then e.gz else none) with
+    | some x =>
+      rw [hg1] at h
+      simp only [Option.some.injEq, Prod.mk.injEq] at h
+      obtain ⟨rfl, rfl⟩ := h
+      have : e.gz = some x := by
+        split at hg1
+        · exact hg1
+        · cases hg1
+      exact h2 _ this
+    | none =>
+      rw [hg1] at h
+      simp only at h
+      cases hu : e.un with
+      | some x =>
+        rw [hu] at h
+        simp only [Option.some.injEq, Prod.mk.injEq] at h
+        obtain ⟨rfl, rfl⟩ := h
+        rw [K.dec_raw, h1 _ hu]
+      | none =>
+        rw [hu] at h
+        simp only at h
+        cases hbr : e.br with
+        | some x =>
+          rw [hbr] at h
+          simp only [Option.some.injEq, Prod.mk.injEq] at h
+          obtain ⟨rfl, rfl⟩ := h
+          exact h3 _ hbr
+        | none =>
+          rw [hbr] at h
+          simp only at h
+          cases hgz : e.gz with
+          | some x =>
+            rw [hgz] at h
+            simp only [Option.some.injEq, Prod.mk.injEq] at h
+            obtain ⟨rfl, rfl⟩ := h
+            exact h2 _ hgz
+          | none => rw [hgz] at h; cases h
+
+theorem folderSelect_content (K : Codec) (e : StaticEntry) (p b : Bytes) (c : Comp)
+    (hc : Consistent K e p) (h : folderSelect e = some (b, c)) : K.dec c b = some p := by
+  obtain ⟨h1, h2, h3⟩ := hc
+  unfold folderSelect at h
+  cases hu : e.un with
+  | some x =>
+    rw [hu] at h
+    simp only [Option.some.injEq, Prod.mk.injEq] at h
+    obtain ⟨rfl, rfl⟩ := h
+    rw [K.dec_raw, h1 _ hu]
+  | none =>
+    rw [hu] at h
+    simp only at h
+    cases hbr : e.br with
+    | some x =>
+      rw [hbr] at h
+      simp only [Option.some.injEq, Prod.mk.injEq] at h
+      obtain ⟨rfl, rfl⟩ := h
+      exact h3 _ hbr
+    | none =>
+      rw [hbr] at h
+      simp only at h
+      cases hgz : e.gz with
+      | some x =>
+        rw [hgz] at h
+        simp only [Option.some.injEq, Prod.mk.injEq] at h
+        obtain ⟨rfl, rfl⟩ := h
+        exact h2 _ hgz
+      | none => rw [hgz] at h; cases h
+
+theorem firstHit_some {srcs : List StaticSrc} {path : String} {t : Target} {r : SrcResp}
+    (h : firstHit srcs path t = some r) : ∃ s ∈ srcs, s.get path t = some r := by
+  induction srcs with
+  | nil => simp [firstHit] at h
+  | cons s rest ih =>
+    simp only [firstHit] at h
+    cases hs : s.get path t with
+    | some r' => rw [hs] at h; cases h; exact ⟨s, by simp, hs⟩
+    | none =>
+      rw [hs] at h
+      obtain ⟨s', hm, hg⟩ := ih h
+      exact ⟨s', by simp [hm], hg⟩
+
+theorem firstHit_none_iff (srcs : List StaticSrc) (path : String) (t : Target) :
+    firstHit srcs path t = none ↔ ∀ s ∈ srcs, s.get path t = none := by
+  induction srcs with
+  | nil => simp [firstHit]
+  | cons s rest ih =>
+    simp only [firstHit]
+    cases hs : s.get path t with
+    | some r => simp [hs]
+    | none => simp [hs, ih]
+
+/-- the path `serve_static` looks up -/
+def staticPath (path : String) : String := if path.endsWith "/" then path ++ "index.html" else path
+
+/-- **static route, body law**: if every stored variant of every file carries that file's content, then whatever
+    variant is picked (precompressed or plain) and however it is re-encoded on the fly, the body decodes to the
+    content of the requested file; Content-Type is the file's type, Content-Encoding names the body's encoding -/
+theorem static_sound (K : Codec) (srcs : List StaticSrc) (content : String → Bytes)
+    (hc : ∀ s ∈ srcs, ∀ q e, s.files q = some e → Consistent K e (content q))
+    (path : String) (accept : Option String) (fast : Bool) (ct : String) (ce : Option String) (c : Comp)
+    (body : Bytes) (h : serveStatic K srcs path accept fast = .ok ct ce c body) :
+    K.dec c body = some (content (staticPath path)) ∧ ce = encToken c ∧
+      ∃ s ∈ srcs, ∃ e, s.files (staticPath path) = some e ∧ ct = e.mime := by
+  unfold serveStatic at h
+  change (match firstHit srcs (staticPath path) (staticTarget accept fast) with
+    | some r => okData K r accept fast | none => Resp.notFound) = _ at h
+  cases hf : firstHit srcs (staticPath path) (staticTarget accept fast) with
+  | none => rw [hf] at h; cases h
+  | some r =>
+    rw [hf] at h
+    obtain ⟨h1, h2, h3, _⟩ := okData_sound K r accept fast ct ce c body h
+    obtain ⟨s, hs, hg⟩ := firstHit_some hf
+    unfold StaticSrc.get at hg
+    cases hfile : s.files (staticPath path) with
+    | none => rw [hfile] at hg; cases hg
+    | some e =>
+      rw [hfile] at hg
+      have hcons := hc s hs _ e hfile
+      simp only at hg
+      cases hk : s.kind with
+      | tar =>
+        rw [hk] at hg
+        simp only at hg
+        cases hsel : tarSelect e (staticTarget accept fast) with
+        | none => rw [hsel] at hg; cases hg
+        | some bc =>
+          obtain ⟨b, c0⟩ := bc
+          rw [hsel] at hg
+          simp only [Option.some.injEq] at hg
+          subst hg
+          have := tarSelect_content K e _ _ b c0 hcons hsel
+          exact ⟨by rw [h3]; exact this, h2, s, hs, e, hfile, h1⟩
+      | folder =>
+        rw [hk] at hg
+        simp only at hg
+        cases hsel : folderSelect e with
+        | none => rw [hsel] at hg; cases hg
+        | some bc =>
+          obtain ⟨b, c0⟩ := bc
+          rw [hsel] at hg
+          simp only [Option.some.injEq] at hg
+          subst hg
+          have := folderSelect_content K e _ b c0 hcons hsel
+          exact ⟨by rw [h3]; exact this, h2, s, hs, e, hfile, h1⟩
+
+/-- static route: 404 exactly when no source knows the path (a file with at least one variant is always served
+    when its variants are valid) -/
+theorem static_404_of_unknown (K : Codec) (srcs : List StaticSrc) (path : String) (accept : Option String)
+    (fast : Bool) (h : ∀ s ∈ srcs, s.files (staticPath path) = none) :
+    serveStatic K srcs path accept fast = .notFound := by
+  unfold serveStatic
+  change (match firstHit srcs (staticPath path) (staticTarget accept fast) with
+    | some r => okData K r accept fast | none => Resp.notFound) = _
+  have : firstHit srcs (staticPath path) (staticTarget accept fast) = none := by
+    rw [firstHit_none_iff]
+    intro s hs
+    simp [StaticSrc.get, h s hs]
+  rw [this]
+
+/-- a Content-Encoding token on a static response occurs in the Accept-Encoding value, too -/
+theorem static_encoding_listed (K : Codec) (srcs : List StaticSrc) (path : String) (accept : Option String)
+    (fast : Bool) (ct tok : String) (c : Comp) (body : Bytes)
+    (h : serveStatic K srcs path accept fast = .ok ct (some tok) c body) :
+    ∃ hv, accept = some hv ∧
+      ((tok = "gzip" ∧ tokGzip <:+: hv.toList) ∨ (tok = "br" ∧ tokBr <:+: hv.toList)) := by
+  unfold serveStatic at h
+  change (match firstHit srcs (staticPath path) (staticTarget accept fast) with
+    | some r => okData K r accept fast | none => Resp.notFound) = _ at h
+  cases hf : firstHit srcs (staticPath path) (staticTarget accept fast) with
+  | none => rw [hf] at h; cases h
+  | some r =>
+    rw [hf] at h
+    obtain ⟨_, h2, _, h4⟩ := okData_sound K r accept fast ct (some tok) c body h
+    cases c with
+    | raw => simp [encToken] at h2
+    | gzip =>
+      have hg : (targetFor accept fast r.mime).gzip = true := h4
+      rw [targetFor_gzip] at hg
+      obtain ⟨s, hs, hi⟩ := getEncoding_gzip hg
+      simp only [encToken, Option.some.injEq] at h2
+      exact ⟨s, hs, Or.inl ⟨h2, hi⟩⟩
+    | brotli =>
+      have hb : (targetFor accept fast r.mime).brotli = true := h4
+      rw [targetFor_brotli] at hb
+      obtain ⟨s, hs, hi⟩ := getEncoding_brotli hb
+      simp only [encToken, Option.some.injEq] at h2
+      exact ⟨s, hs, Or.inr ⟨h2, hi⟩⟩
+
+/-- a brotli blob that the client accepts is never touched (precompressed `.br` files are sent as stored) -/
+theorem optimize_brotli_kept (K : Codec) (b : Bytes) (t : Target) (hraw : t.raw = true) (hb : t.brotli = true) :
+    optimize K b .brotli t = .ok (b, .brotli) := by
+  unfold optimize
+  have h1 : t.isEmpty = false := by simp [Target.isEmpty, hraw]
+  have h2 : t.has .raw = true := hraw
+  have h3 : t.has .brotli = true := hb
+  simp [h1, h2, h3]
 
 /-! ### non-vacuity -/
 
